@@ -11,7 +11,7 @@ JOIN_FINDING = "C11-join-early"
 
 def jobs(tier):
     thorough = tier == "thorough"
-    full = {"name": "all-interleavings", "depth": 16 if not thorough else 20, "preempt": None, "timeout": 200 if not thorough else 1500}
+    full = {"name": "all-interleavings", "depth": 16 if not thorough else 18, "preempt": None, "timeout": 200 if not thorough else 900}
     ctx = {"name": "context-bounded", "depth": 30, "preempt": 2, "timeout": 1500}
     sizes = [(1, 0), (1, 1), (2, 0), (2, 1)] + ([(2, 2)] if thorough else [])
     out = []
@@ -41,7 +41,7 @@ def jobs(tier):
             base = {"max": mx, "min": mn, "tasks": ["ret", "raise", "ret"], "clients": clients, "W": mx + 2,
                     "props": ["exactly_once", "nodeadlock", "stopped_clean", "no_run_after_stop"], "window_at": k, "twin_prog": "progress", "hold": [1]}
             out.append((dict(base, name="c11-stop-busy-max{0}min{1}-op{2}".format(mx, mn, k)), dict(full, depth=full["depth"] - 2, timeout=600)))
-            if thorough and k == 3:
+            if False and thorough and k == 3:
                 out.append((dict(base, name="c11-stop-busy-max{0}min{1}-op{2}".format(mx, mn, k)), ctx))
         # an enqueue landing while stop() is inside clear() (queue drained, workers joined)
         clients = [["start", "enq0", "stop"], ["enq1"]]
